@@ -44,6 +44,13 @@ ExcerptOk(d) ==
      /\ off >= 0 /\ n >= 1
      /\ Len(m) = off + n
      /\ \A i \in 1..Len(m) : (m[i] = 94) = (i > off)
+     \* in front of the carets: a tab where the source has a tab (same spacing on a terminal), otherwise something
+     \* that takes one column and does not move the cursor (no carriage return, line feed, form feed ...)
+     /\ \A i \in 1..Len(m) : i <= off =>
+           LET k == (FirstNonWs(src, 1) - 1) + i
+               sc == IF k <= Len(src) THEN src[k] ELSE 32
+           IN /\ m[i] \notin {10, 11, 12, 13, 133, 8232, 8233}
+              /\ (m[i] = 9) = (sc = 9)
 
 Judge(e) ==
   LET lib == e.library
